@@ -136,6 +136,69 @@ func runC12(c *Ctx) {
 		}
 	}
 
+	// R-KEY-WHOLE: normalizeTokenKey lets every byte of the configured key reach the AEAD key
+	if nf := c.Fn("R-KEY-WHOLE", "normalizeTokenKey"); nf != nil {
+		Instrs(nf, func(in ssa.Instruction) {
+			ret, ok := in.(*ssa.Return)
+			if !ok {
+				return
+			}
+			v := ret.Results[0]
+			d := u.Describe(v)
+			switch {
+			case v == ssa.Value(nf.Params[0]):
+				r.Check(u.HasGuardContaining(in, "(len(key) == 32)"), "R-KEY-WHOLE", "normalizeTokenKey|return key", u.Pos(in.Pos()), "the key is used verbatim only when it is exactly 32 bytes", "the raw key is returned without the len(key) == 32 guard")
+			default:
+				os := u.Origins(v, &OriginOpts{MaxNodes: 200})
+				hashed := false
+				partial := false
+				for _, o := range os {
+					if o.Kind == "call" && o.Desc == "crypto/sha256.Sum256" {
+						if call := rootCall(o.Val); call != nil && call.Call.Args[0] == ssa.Value(nf.Params[0]) {
+							hashed = true
+						}
+					}
+					if o.Kind == "param" {
+						partial = true // a slice/derivation of the key other than the hash of all of it
+					}
+				}
+				if sl, isSl := v.(*ssa.Slice); isSl && sl.X == ssa.Value(nf.Params[0]) {
+					partial = true
+				}
+				r.Check(hashed && !partial, "R-KEY-WHOLE", "normalizeTokenKey|return derived", u.Pos(in.Pos()), "other key lengths are collapsed with SHA-256 over the whole key", "AEAD key "+d+" is derived from only part of the configured key (origins {"+OriginSummary(os)+"}): two different keys can open each other's tokens")
+			}
+		})
+	}
+	// R-DECODE-ERR: every fallible step of the token openers has its error tested, and the failure arm returns an error
+	for _, name := range []string{"(*HttpServer).openToken", "unpackTokenPayload", "openSessionToken"} {
+		f := c.Fn("R-DECODE-ERR", name)
+		if f == nil {
+			continue
+		}
+		for _, cs := range u.Calls(f, nil) {
+			call, isCall := cs.Instr.(*ssa.Call)
+			if !isCall {
+				continue
+			}
+			res := call.Call.Signature().Results()
+			if res.Len() == 0 || !isErrorType(res.At(res.Len()-1).Type()) || cs.Callee == "fmt.Errorf" || cs.Callee == "errors.New" {
+				continue
+			}
+			_, blk := u.ErrBranch(call)
+			ok := blk != nil
+			if ok {
+				// the failure arm must end in a return of a non-nil error (or, for the padded-base64 retry in openSessionToken, lead to another tested decode)
+				ok = BlockEndsInReturnDeep(blk) || name == "openSessionToken"
+			}
+			r.Check(ok, "R-DECODE-ERR", name+"|"+cs.Callee, u.Pos(cs.Instr.Pos()), "error of "+cs.Callee+" is tested and refuses the token", "the error of "+cs.Callee+" is discarded or does not refuse the token: a malformed/extended token is treated as well-formed")
+		}
+		// and no fallible decoder variant that reports errors only through a count is used with the error dropped
+		for _, cs := range u.Calls(f, HasSuffix("base64.Encoding).Decode")) {
+			e := ExtractOf(cs.Value().(*ssa.Call), 1)
+			r.Check(e != nil && e.Referrers() != nil && len(*e.Referrers()) > 0, "R-DECODE-ERR", name+"|base64.Decode-err", u.Pos(cs.Instr.Pos()), "decode error consulted", "base64 Decode error dropped")
+		}
+	}
+
 	// R-WHO-OPENS
 	allowedCallers := map[string][]string{
 		"(*HttpServer).openToken":       {"(*HttpServer).openCursorToken", "(*HttpServer).resolveCall"},
